@@ -1,6 +1,6 @@
 CONSTANTS
-  Vocab <- VocabIriBig
-  MaxSegs = 6
+  Vocab <- VocabPct
+  MaxSegs = 4
   Fam = "iri"
 INIT Init
 NEXT Next
